@@ -529,6 +529,16 @@ class Sim(object):
             cls = self.classes[run['cls']]
             cspec = self.case['classes'][run['cls']]
             script = run['script']
+            if run['run'] == 'foreign':
+                # a recording that was not made by the recorder: saved straight through the cassette API
+                from playback.tape_recorder import TapeRecorder as T
+                rec = spy.create_new_recording(run['cls'])
+                if run.get('output') is not None:
+                    rec.set_data('output: %s #1.output' % T.OPERATION_OUTPUT_ALIAS, {'args': [to_py(run['output'])], 'kwargs': {}})
+                rec.add_metadata({T.DURATION: 3} if run.get('duration', True) else {'note': 'hand made'})
+                spy.save_recording(rec)
+                out.append({'foreign': self.log_since(log0), 'idle': self.idle()})
+                continue
             if run['run'] == 'op':
                 target = cls if cspec.get('classLevel') else cls()
                 end = self.end_of(lambda: target.execute(script))
@@ -684,6 +694,9 @@ def model_request(case):
              'draws': run.get('draws', []), 'clock': run.get('clock', [])}
         if run['run'] == 'play':
             r['rec'] = run['rec'] if run['rec'] >= 0 else MISSING_ID
+        if run['run'] == 'foreign':
+            r['duration'] = bool(run.get('duration', True))
+            r['output'] = None if run.get('output') is None else canon_wire(run['output'])
         runs.append(r)
     return {'m': 'rec.hist', 'sites': sites, 'runs': runs}
 
